@@ -914,6 +914,42 @@ def enum_grid(tier):
             yield gen_case(R.HashChooser(f'c16-blk-grid/{name}/{label}/{i}'), name, gt, budget)
 
 
+def _shapes(n):
+    """every binary-tree shape with n leaves: 'L' or (left, right)"""
+    if n == 1:
+        return ['L']
+    out = []
+    for k in range(1, n):
+        for l in _shapes(k):
+            for r in _shapes(n - k):
+                out.append((l, r))
+    return out
+
+
+def enum_bintree_shapes(tier):
+    """ShardHashes whose BinTree has EVERY shape with 1..5 leaves (thorough: 6) plus left / right combs of depth 8: the leaves
+    are handed out left to right whatever the shape (a deeper leaf left of a shallower one included); 1 and 2 workchains"""
+    shapes = [sh for n in range(1, 6 if tier == 'quick' else 7) for sh in _shapes(n)]
+    comb_l, comb_r = 'L', 'L'
+    for _ in range(8):
+        comb_l, comb_r = (comb_l, 'L'), ('L', comb_r)
+    shapes += [comb_l, comb_r]
+    for si, sh in enumerate(shapes):
+        ch = R.HashChooser(f'c16-blk-bintree/{si}')
+        cnt = [0]
+
+        def build(x):
+            if x == 'L':
+                cnt[0] += 1
+                return {'_': 'bt_leaf', 'leaf': R.generate(B.ShardDescrGen, ch, budget=2)}
+            return {'_': 'bt_fork', 'left': build(x[0]), 'right': build(x[1])}
+        v = [[0, build(sh)]]
+        if si % 3 == 0:
+            v.append([(si * 2654435761) % (1 << 31) + 1, build(shapes[(si * 7 + 3) % len(shapes)])])
+            v.sort(key=lambda kv: kv[0])
+        yield {'type': 'ShardHashes', 'v': v, 'tail': {'bits': '101' if si % 2 else '', 'nrefs': si % 2}, 'shape': repr(sh)[:60]}
+
+
 # --------------------------------------------------------------------------------------------------
 # classification
 
@@ -974,6 +1010,8 @@ SUBCHECKS = [
     Sub('blk-ctor-grid', check_value, enum=enum_grid, classify=classify, nontrivial=nontrivial, shards=(16, 16),
         note='every constructor alternative x flag / optional-field combination of the covered block-level types, hash-chosen '
              'and min / max field values, sentinel tail appended'),
+    Sub('blk-bintree-shapes', check_value, enum=enum_bintree_shapes, classify=classify, nontrivial=nontrivial, shards=(8, 16),
+        exhaustive=True, note='ShardHashes with every BinTree shape of 1..5 (thorough 6) leaves and depth-8 combs'),
     Sub('blk-random', check_value, strategy=strat_random, classify=classify, nontrivial=nontrivial,
         n=(1200, 30000), shards=(16, 32)),
     Sub('blk-real-block', check_real_block, enum=enum_real, classify=classify_real, exhaustive=True, shards=(3, 3),
